@@ -87,6 +87,9 @@ func ValidateOrphan(s State, b types.Block) error {
 		weight += s.TransactionWeight(txn)
 	}
 	for _, txn := range b.V2Transactions() {
+		if err := validateV2PoliciesPresent(txn); err != nil {
+			return err
+		}
 		weight += s.V2TransactionWeight(txn)
 	}
 	if weight > s.MaxBlockWeight() {
@@ -943,11 +946,30 @@ func validateFoundationUpdate(ms *MidState, txn types.V2Transaction) error {
 	return errors.New("transaction changes Foundation address, but does not spend an input controlled by current address")
 }
 
+// validateV2PoliciesPresent rejects inputs without a spend policy. Such inputs
+// cannot be decoded from the binary encoding, but can be constructed directly
+// or decoded from JSON, and cannot be encoded (or weighed).
+func validateV2PoliciesPresent(txn types.V2Transaction) error {
+	for i, sci := range txn.SiacoinInputs {
+		if sci.SatisfiedPolicy.Policy.Type == nil {
+			return fmt.Errorf("siacoin input %v has no spend policy", i)
+		}
+	}
+	for i, sfi := range txn.SiafundInputs {
+		if sfi.SatisfiedPolicy.Policy.Type == nil {
+			return fmt.Errorf("siafund input %v has no spend policy", i)
+		}
+	}
+	return nil
+}
+
 // ValidateV2Transaction validates txn within the context of ms.
 func ValidateV2Transaction(ms *MidState, txn types.V2Transaction) error {
 	if ms.base.childHeight() < ms.base.Network.HardforkV2.AllowHeight {
 		return errors.New("v2 transactions are not allowed until v2 hardfork begins")
 	} else if err := validateV2CurrencyOverflow(ms, txn); err != nil {
+		return err
+	} else if err := validateV2PoliciesPresent(txn); err != nil {
 		return err
 	} else if weight := ms.base.V2TransactionWeight(txn); weight == 0 {
 		return errors.New("transactions cannot be empty")
